@@ -290,6 +290,9 @@ def main(tier):
     ck.add_units(units, specs)
     rule_A(ck, units, 60 if tier == 'quick' else 90)
     rule_B(ck, units)
+    # "every interleaving yields the serial sweep's result" also needs the level-scheduled row kernel to be the serial one (shared with C06)
+    import c06
+    c06.rule_gs(ck, {k: v for k, v in units.items() if k == 'rt_builtin'})
     ck.assumptions += ['index arrays selected by an owned index (row pointers, permutations, per-row maps) are injective row maps',
                        'the run-time team size equals omp_get_max_threads() at construction of the level schedules',
                        'bitwise identity of results and summation-order effects of reductions are not decided']
